@@ -139,4 +139,36 @@ def extrudeShapeTris (pathLen sides : Nat) (close : Bool) : List Nat :=
       (if close then extrudeRing (pathIndex * sides) 0 sides else [])
     else extrudeRing (pathIndex * sides) ((pathIndex + 1) * sides) sides
 
+/-! ### extrude.polygon (extrude/circle.go:50-194; `Polygon`, `Circle.Extrude`, `CircleAlongSpline.Extrude`):
+`pathLen` rings of `sides + 1` vertices. The winding of each quad is decided by a floating point
+test (`dir.Dot(...) < 0`), so it is a parameter here: one flag per quad, in emission order. -/
+
+def polygonVerts (pathLen sides : Nat) : Nat := pathLen * (sides + 1)
+
+def polygonQuad (bottom top s : Nat) (flip : Bool) : List Nat :=
+  let topRight := top + s
+  let bottomRight := bottom + s
+  let topLeft := topRight + 1
+  let bottomLeft := bottomRight + 1
+  if flip then [bottomLeft, topRight, topLeft, bottomLeft, bottomRight, topRight]
+  else [bottomLeft, topLeft, topRight, bottomLeft, topRight, bottomRight]
+
+/-- the quads in emission order as (bottom, top, sideIndex) -/
+def polygonQuads (pathLen sides : Nat) (closed : Bool) : List (Nat × Nat × Nat) :=
+  (List.range pathLen).flatMap fun p =>
+    if p = pathLen - 1 then
+      (if closed then (List.range sides).map fun s => (p * (sides + 1), 0, s) else [])
+    else (List.range sides).map fun s => (p * (sides + 1), (p + 1) * (sides + 1), s)
+
+def polygonTris (pathLen sides : Nat) (closed : Bool) (flips : List Bool) : List Nat :=
+  ((polygonQuads pathLen sides closed).zip flips).flatMap fun qf =>
+    polygonQuad qf.1.1 qf.1.2.1 qf.1.2.2 qf.2
+
+/-- recover the winding flags from an emitted index list (second entry of each group of six) -/
+def polygonFlipsOf (pathLen sides : Nat) (closed : Bool) (idx : List Nat) : List Bool :=
+  (polygonQuads pathLen sides closed).zipIdx.map fun qi =>
+    match idx[6 * qi.2 + 1]? with
+    | some x => x == qi.1.2.1 + qi.1.2.2
+    | none => false
+
 end PolyVerif.Prim
